@@ -251,6 +251,13 @@ def run(chk: Check) -> None:
             acts = [f"{'04' if cls == '08' else '13'}:{2000 + 100 * k + 10 * i + j:06d}" for j in range(1 + (i + k) % 2)]
             zs[f"{i:02X}"] = {"class": cls, "sensor": f"34:{3000 + 100 * k + i:06d}", "actuators": acts}
         jobs.append(({"zones": zs, "dhw": {"sensor": None, "hotwater_valve": None, "heating_valve": None}, "app": None}, [], 1))
+    # a relay-heavy installation: twelve zone-valve / electric zones of four relays each, both DHW valves and a relay as
+    # appliance control - more pollers than the send buffer holds (32); a refused request is only a late one
+    zs = {f"{i:02X}": {"class": ("0A", "11")[i % 2], "sensor": f"34:{4000 + i:06d}", "actuators": [f"13:{4100 + 10 * i + j:06d}" for j in range(4)]}
+          for i in range(12)}
+    big = {"zones": zs, "dhw": {"sensor": "07:004500", "hotwater_valve": "13:004501", "heating_valve": "13:004502"}, "app": "13:004503"}
+    jobs.append((big, [set()], 2, "after", "big"))
+    jobs.append((big, [{"000C/0508", "000C/000D"}, set()], 3, "after", "big"))
     for ep in range(n_ep):
         cfg = gen_cfg(rnd)
         n_lossy = rnd.choice((0, 0, 1, 1, 2, 3))
@@ -294,7 +301,9 @@ def run(chk: Check) -> None:
         if o["loop_errors"]:
             chk.count("loop_handler_exception." + o["loop_errors"][0].split("(")[0])
         # correspondence: the schema at the end of every day
-        for d in range(len(o["days"])):
+        # (the model has no send buffer: where requests are refused for want of room the days before the last are the
+        # implementation's alone, judged above - nothing false, nothing lost again - and the last day must agree)
+        for d in (range(len(o["days"])) if "big" not in _ann else range(len(o["days"]) - 1, len(o["days"]))):
             losses = ";".join(",".join(sorted(lost_by_day[k])) if k < len(lost_by_day) and lost_by_day[k] else "-" for k in range(d + 1))
             reqs.append(f"disc.run\t{cfg_for_model(cfg)}\t{losses}")
             impl.append("ok\t" + o["days"][d])
